@@ -332,6 +332,9 @@ econf_err econf_readConfigWithCallback(econf_file **key_file,
   econf_err ret = ECONF_SUCCESS;
   int init_keyfile = 0;
 
+  if ((config_name == NULL || strlen(config_name) == 0) && project == NULL)
+    return ECONF_ARGUMENT_IS_NULL_VALUE; /* nothing to look for */
+
   if (*key_file == NULL) {
     if ((ret = econf_newKeyFile_with_options(key_file, "")) != ECONF_SUCCESS)
       return ret;
